@@ -102,9 +102,11 @@ def step (line : String) : String :=
     let hx := (List.range (L+2)).map (fun (i : Nat) => fb (frd (α := Float) st 2 ((i : Nat) : Int)))
     String.intercalate " " wedge ++ " | " ++ String.intercalate " " hv ++ " | " ++ String.intercalate " " hx
   | ["gendfull", L, ellmin, c, s, dflt] =>
+    -- (the GENERATED body of `Wigner.d`, Gen/MethodKern.lean: `self.H` then `_fill_wigner_d`, as the method wires them)
     let L := L.toNat!
-    let st := genHState L L (bf c) (bf s) (bf dflt)
-    let st := Gen.u_fill_wigner_d (α := Float) ellmin.toInt! L L 3 (fun i => frd (α := Float) st 0 i) st
+    let (a, b, d, g, h) := genTables L
+    let st0 : HFMem Float := { map := ∅, dflt := bf dflt }
+    let st := Gen.Wigner_d_body (α := Float) g h L L a b d ⟨bf c, bf s⟩ 0 1 2 3 ellmin.toInt! st0
     let n := (Gen.WignerDsize ellmin.toInt! L L).toNat
     String.intercalate " " ((List.range n).map (fun (i : Nat) => fb (frd (α := Float) st 3 ((i : Nat) : Int))))
   | ["genDfull", L, ellmin, r0, r1, r2, r3, isA, isG, dflt] =>
